@@ -1,4 +1,5 @@
 import SaVerif.Model.ExprOp
+import SaVerif.Model.Pratt
 /-!
 # M-EXPR — three-valued semantics of the operators
 
@@ -91,5 +92,80 @@ def evalArith (op : Op) (a b : Val) : Val :=
   | .and_, x, y => ofTV (and3 (truth x) (truth y))
   | .or_, x, y => ofTV (or3 (truth x) (truth y))
   | _, _, _ => .null
+
+/-- three-valued `x IN (v₁, …, vₙ)`: the OR of the equalities (FALSE for the empty list) -/
+def evalIn (x : Val) : List Val → TV
+  | [] => some false
+  | v :: vs => or3 (evalCmp .eq x v) (evalIn x vs)
+
+def evalNotIn (x : Val) (vs : List Val) : TV := not3 (evalIn x vs)
+
+/-! ## a standard interpretation of token trees (scalar fragment)
+
+Values of token trees are scalars or comma lists of scalars (the right side of `IN`). -/
+
+inductive SV
+  | s (v : Val)
+  | l (vs : List Val)
+  deriving DecidableEq, Repr, Inhabited
+
+open SaVerif.Pratt in
+def atomVal (env : String → Val) (a : Atom) : SV :=
+  match a.kind with
+  | .col n => .s (env n)
+  | .int i => .s (.int i)
+  | .str x => .s (.str x)
+  | .num _ => .s .null
+  | .null => .s .null
+  | .true_ => .s (.int 1)
+  | .false_ => .s (.int 0)
+  | .emptySet => .l []
+  | .other => .s .null
+
+def SV.scalar : SV → Val
+  | .s v => v
+  | .l _ => .null
+
+def SV.items : SV → List Val
+  | .s v => [v]
+  | .l vs => vs
+
+open SaVerif.Pratt in
+/-- comparison / boolean / IN symbols over `SV`; every other symbol yields NULL (the
+    theorems that use `stdI` only speak about these symbols) -/
+def stdInf (s : Sym) (a b : SV) : SV :=
+  match s with
+  | .comma => .l (a.items ++ b.items)
+  | .eq => .s (ofTV (evalCmp .eq a.scalar b.scalar))
+  | .ne => .s (ofTV (evalCmp .ne a.scalar b.scalar))
+  | .lt => .s (ofTV (evalCmp .lt a.scalar b.scalar))
+  | .le => .s (ofTV (evalCmp .le a.scalar b.scalar))
+  | .gt => .s (ofTV (evalCmp .gt a.scalar b.scalar))
+  | .ge => .s (ofTV (evalCmp .ge a.scalar b.scalar))
+  | .is_ => .s (ofTV (evalCmp .is_ a.scalar b.scalar))
+  | .isNot => .s (ofTV (evalCmp .is_not a.scalar b.scalar))
+  | .and_ => .s (ofTV (and3 (truth a.scalar) (truth b.scalar)))
+  | .or_ => .s (ofTV (or3 (truth a.scalar) (truth b.scalar)))
+  | .in_ => .s (ofTV (evalIn a.scalar b.items))
+  | .notIn => .s (ofTV (evalNotIn a.scalar b.items))
+  | .plus => .s (evalArith .add a.scalar b.scalar)
+  | .minus => .s (evalArith .sub a.scalar b.scalar)
+  | .star => .s (evalArith .mul a.scalar b.scalar)
+  | _ => .s .null
+
+open SaVerif.Pratt in
+def stdI (env : String → Val) : Interp SV where
+  atom := atomVal env
+  pre := fun s v =>
+    match s with
+    | .not_ => .s (ofTV (not3 (truth v.scalar)))
+    | .neg => match v.scalar with | .int i => .s (.int (-i)) | _ => .s .null
+    | _ => .s .null
+  inf := stdInf
+  tern := fun _ _ _ _ _ => .s .null
+  br := fun k v =>
+    match k with
+    | .paren => v
+    | _ => .s .null
 
 end SaVerif.Expr
